@@ -24,6 +24,16 @@ Theorem C17_last_disconnect : forall ls p rc q,
 Proof. exact c17_last_disconnect. Qed.
 Print Assumptions C17_last_disconnect.
 
+(* no queue outlives the last disconnect: counting connections by the notifications seen (never
+   negative), a Disconnected that leaves the count at 0 leaves the peer without a live queue; *)
+Theorem C17_no_outlive : forall ls p,
+  let s := prun_pm pm_new ls in
+  cnt_run (fun _ => 0) (ls ++ [LDisconnected p]) p = 0 ->
+  let s' := fst (pstep s (LDisconnected p)) in
+  forall q, aget q (queues s') <> Some (p, QLive).
+Proof. exact c17_no_outlive. Qed.
+Print Assumptions C17_no_outlive.
+
 (* every send goes to the one queue the table holds (so the order in which messages were queued for a
    peer is the order of that queue; FIFO inside a queue is part of the message-queue model, C16). *)
 Theorem C17_get_process : forall ls p,
